@@ -8,6 +8,8 @@
 #include "bls12_381/fr.hpp"
 
 namespace embedded_pairing::core {
+    template union BigInt<128>;
+    template union BigInt<192>;
     template union BigInt<256>;
     template union BigInt<384>;
     template union BigInt<512>;
